@@ -360,7 +360,7 @@ impl Mut {
     }
 }
 
-const CHUNK_OPS: &[&str] = &["delete", "duplicate", "swap", "to-end", "to-front", "size+1", "size-1", "size=max", "size=0", "size=rest+1", "size=2^31", "truncate-payload", "empty-payload", "magic-flip"];
+const CHUNK_OPS: &[&str] = &["delete", "duplicate", "swap", "to-end", "to-front", "size+1", "size-1", "size=max", "size=0", "size=rest+1", "size=2^31", "truncate-payload", "empty-payload", "magic-flip", "unknown+size=2^31", "unknown+size=-8", "unknown+size=-1", "unknown+size=-here", "size=-8"];
 
 impl Mut {
     /// Inverse of `describe` (witness files name a mutant by what it does, not by its position in the plan).
@@ -586,6 +586,20 @@ fn chunk_op(seed: &Seed, op: &str, off: usize, other: usize) -> Vec<u8> {
             let blk: Vec<u8> = d[a..a + 4].iter().rev().copied().collect();
             out[a..a + 4].copy_from_slice(&blk);
         }
+        // a chunk no reader knows ("skip unknown chunk" paths) whose size, read as a signed 32-bit value, is negative:
+        // a skip that honours the sign walks backwards (onto this header again: -8; to the start of the file: -here)
+        o if o.starts_with("unknown+size=") || o == "size=-8" => {
+            if o != "size=-8" {
+                out[a..a + 4].copy_from_slice(b"ZZQX");
+            }
+            let v: u64 = match o.rsplit('=').next().unwrap_or("") {
+                "2^31" => 0x8000_0000,
+                "-8" => 0xFFFF_FFF8,
+                "-1" => 0xFFFF_FFFF,
+                _ => (0x1_0000_0000u64 - (off as u64 + 8).min(0x7FFF_FFFF)) & 0xFFFF_FFFF,
+            };
+            put(&mut out, off + 4, 4, v);
+        }
         _ => {}
     }
     out.truncate(MAX_INPUT);
@@ -764,7 +778,8 @@ pub fn chunk_mutants(seed: &Seed) -> Vec<Mut> {
     pick.sort_by_key(|c| c.off);
     let mut out = Vec::new();
     for (i, c) in pick.iter().enumerate() {
-        for op in ["delete", "duplicate", "to-end", "to-front", "size+1", "size-1", "size=max", "size=0", "size=rest+1", "size=2^31", "truncate-payload", "empty-payload", "magic-flip"] {
+        for op in ["delete", "duplicate", "to-end", "to-front", "size+1", "size-1", "size=max", "size=0", "size=rest+1", "size=2^31", "truncate-payload", "empty-payload", "magic-flip",
+                   "unknown+size=2^31", "unknown+size=-8", "unknown+size=-1", "unknown+size=-here", "size=-8"] {
             out.push(Mut::Chunk { op, off: c.off, other: 0 });
         }
         // reorder: swap with the next sibling and with the last picked chunk of the same depth
@@ -1500,6 +1515,24 @@ pub fn worker_main(formats: Vec<FormatDef>, havoc_quick: u64, havoc_thorough: u6
                     s.bytes.truncate(MAX_INPUT);
                 }
                 v.retain(|s| !s.bytes.is_empty());
+                // one sizeable variant per structure format: the same valid file followed by 1 MiB the format does not use (an
+                // unknown trailing chunk / bytes behind the last array). Count and size fields of a file that really has a
+                // megabyte behind them are where "bounded by what is left in the stream" pre-allocations stop being small.
+                if matches!(f.name, "m2" | "skin" | "anim" | "adt" | "wmo-root" | "wmo-group" | "wdt" | "wdl") {
+                    if let Some(base) = v.iter().find(|s| s.bytes.len() + (1 << 20) + 8 <= MAX_INPUT).cloned() {
+                        let mut big = base;
+                        let pad = (0..(1usize << 20)).map(|i| ((i * 7) % 251) as u8 | 1);
+                        if matches!(big.layout, Layout::Chunked { .. }) {
+                            big.bytes.extend_from_slice(b"ZZPD");
+                            big.bytes.extend_from_slice(&(1u32 << 20).to_le_bytes());
+                            big.label.push_str("+1MiB-unknown-tail-chunk");
+                        } else {
+                            big.label.push_str("+1MiB-tail");
+                        }
+                        big.bytes.extend(pad);
+                        v.push(big);
+                    }
+                }
                 seeds.push(v)
             }
             Err(why) => {
